@@ -9,6 +9,17 @@ BASE_ASSUMPTIONS = [
 ]
 
 CHECKS = {
+    "C11": {
+        "quick": [
+            {"pkg": "v2", "entries": ["VerifC11Merge"], "params": {"D": 0, "EMPTYOBJ": 1}},
+        ],
+        "thorough": [
+            {"pkg": "v2", "entries": ["VerifC11Merge"], "params": {"D": 1, "EMPTYOBJ": 1, "ROOTS": 1, "OPTN": 1}},
+            {"pkg": "v2", "entries": ["VerifC11Merge"], "params": {"D": 0, "EMPTYOBJ": 1, "INNER": 2}},
+        ],
+        "covers": ["c11.merge.merge", "c11.merge.set+merge", "c11.merge.multiset+merge"],
+        "outside": "keys other than a,b,c; depth beyond D+1; text-level encoding of the patch (codec axioms)",
+    },
     "C12": {
         "quick": [
             {"pkg": "v2", "entries": ["VerifC12Merge"], "params": {"D": 0}},
@@ -136,7 +147,7 @@ DEFAULT_TECHNIQUE = "bounded symbolic execution of the Go SSA with SMT (z3/cvc5)
 _NA_PENDING = "check not built yet in this session (engine exists; harness pending)"
 NOT_APPLICABLE = {
     "C02": _NA_PENDING, 
-    "C09": _NA_PENDING, "C10": _NA_PENDING, "C11": _NA_PENDING,
+    "C09": _NA_PENDING, "C10": _NA_PENDING, 
     "C14": _NA_PENDING, "C15": _NA_PENDING, "C17": _NA_PENDING, "C18": _NA_PENDING,
     "C16": ("quantifies over the characters of strings as they pass through yaml.v2's scanner/resolver/emitter and encoding/json "
             "(about 10k lines of third-party reflection- and regexp-driven text code); no Go symbolic engine in the image reaches that "
